@@ -75,19 +75,45 @@ def prepare(log):
 def regenerate(log):
     """Run the fact extractor / translator over /repo (tools/gen) writing lean/Rosmar/Gen/*.lean."""
     gen_dir = os.path.join(VERIF, "tools", "gen")
-    if not os.path.isdir(gen_dir):
-        return []
+    os.makedirs(WORK, exist_ok=True)
     binp = os.path.join(gen_dir, "gen")
+    out_dir = os.path.join(LEAN, "Rosmar", "Gen")
+    os.makedirs(out_dir, exist_ok=True)
+    h = hashlib.sha256(repo_fingerprint().encode())
+    for fn in ("main.go", "go.mod"):
+        with open(os.path.join(gen_dir, fn), "rb") as f:
+            h.update(f.read())
+    stamp_path = os.path.join(WORK, "gen.stamp")
+    outs = [os.path.join(out_dir, "Pure.lean"), os.path.join(out_dir, "Facts.lean")]
+    if os.path.exists(stamp_path) and all(os.path.exists(o) for o in outs):
+        with open(stamp_path) as f:
+            st = json.load(f)
+        if st.get("key") == h.hexdigest() and st.get("repo") == REPO and all(file_hash(o) == st["outs"].get(os.path.basename(o)) for o in outs):
+            return st.get("problems", [])
     p = sh(["go", "build", "-o", binp, "."], cwd=gen_dir, env=GOENV)
     if p.returncode != 0:
         raise MachineryError("gen does not build:\n" + p.stderr[-3000:])
-    out_dir = os.path.join(LEAN, "Rosmar", "Gen")
-    os.makedirs(out_dir, exist_ok=True)
-    p = sh([binp, "-repo", REPO, "-out", out_dir], cwd=gen_dir, env=GOENV)
+    tmp_out = os.path.join(WORK, "gen_out_%d" % os.getpid())
+    os.makedirs(tmp_out, exist_ok=True)
+    p = sh([binp, "-repo", REPO, "-out", tmp_out], cwd=gen_dir, env=GOENV)
+    problems = []
     if p.returncode != 0:
         # the translator met source it cannot translate: every theorem over the generated definitions is unproved
-        return ["gen: " + (p.stderr.strip().splitlines() or ["failed"])[-1]]
-    return []
+        problems = ["gen: " + (p.stderr.strip().splitlines() or ["failed"])[-1]]
+    else:
+        for o in outs:
+            src = os.path.join(tmp_out, os.path.basename(o))
+            if not os.path.exists(o) or file_hash(o) != file_hash(src):
+                shutil.copyfile(src, o)
+    shutil.rmtree(tmp_out, ignore_errors=True)
+    with open(stamp_path, "w") as f:
+        json.dump({"key": h.hexdigest(), "repo": REPO, "problems": problems, "outs": {os.path.basename(o): file_hash(o) for o in outs if os.path.exists(o)}}, f)
+    return problems
+
+
+def file_hash(path):
+    with open(path, "rb") as f:
+        return hashlib.sha256(f.read()).hexdigest()
 
 
 # --------------------------------------------------------------------------------------------------
